@@ -64,6 +64,18 @@ def _names_read(e):
     return out
 
 
+def _reads(e):
+    """sub-expressions of e whose value is read (what stands under an address-of is a location, not a read)"""
+    todo = [e]
+    while todo:
+        x = todo.pop()
+        yield x
+        if isinstance(x, ast.Call) and isinstance(x.func, ast.Name) and x.func.id == '__addr__' and len(x.args) == 1 and isinstance(x.args[0], ast.Subscript):
+            todo.extend([x.args[0].value, x.args[0].slice])
+        else:
+            todo.extend(ast.iter_child_nodes(x))
+
+
 def _written(s):
     out = set()
     tg = []
@@ -176,6 +188,21 @@ def enumerate_paths(stmts, cap=5000):
             if w:
                 decided = dict((k2, v2) for k2, v2 in decided.items() if not (v2[1] & w) and '<call>' not in w)
                 facts = dict((k2, v2) for k2, v2 in facts.items() if k2 not in w)
+            # a store to memory (X[k] = v, o.f = v, through a pointer alias too) ends the life of every remembered definition that reads that location
+            mem = []
+            for t_ in (s.targets if isinstance(s, ast.Assign) else [s.target] if isinstance(s, (ast.AugAssign, ast.AnnAssign)) else []):
+                for x in ([t_] if not isinstance(t_, (ast.Tuple, ast.List)) else t_.elts):
+                    if isinstance(x, (ast.Subscript, ast.Attribute)):
+                        xl = copy.deepcopy(x)
+                        xl.ctx = ast.Load()
+                        mem.append(ast.unparse(resolve(xl, env)).replace(' ', ''))
+            if mem:
+                stale = [nm for nm, v_ in env.items()
+                         if any(isinstance(y, (ast.Subscript, ast.Attribute)) and ast.unparse(y).replace(' ', '') in mem for y in _reads(v_))]
+                if stale:
+                    env = dict(env)
+                    for nm in stale:
+                        env.pop(nm)
             if isinstance(s, ast.Assign) and all(isinstance(t_, ast.Name) for t_ in s.targets):
                 val = resolve(s.value, env)
                 env = dict(env)
@@ -197,7 +224,7 @@ def enumerate_paths(stmts, cap=5000):
                 env = dict(env)
                 for t_ in s.targets:
                     for x in ast.walk(t_):
-                        if isinstance(x, ast.Name):
+                        if isinstance(x, ast.Name) and isinstance(x.ctx, ast.Store):
                             env.pop(x.id, None)
             elif isinstance(s, (ast.AugAssign, ast.AnnAssign)) and isinstance(s.target, ast.Name):
                 env = dict(env)
